@@ -257,6 +257,12 @@ void TasmanianSparseGrid::makeFourierGrid(int dimensions, int outputs, int depth
 }
 
 void TasmanianSparseGrid::copyGrid(const TasmanianSparseGrid *source, int outputs_begin, int outputs_end){
+    if (source == this){ // self-copy (e.g., assignment through an alias), clear() below would wipe the source
+        TasmanianSparseGrid temp;
+        temp.copyGrid(source, outputs_begin, outputs_end);
+        copyGrid(&temp);
+        return;
+    }
     if (outputs_end == -1) outputs_end = source->getNumOutputs();
     clear();
     if (!source->empty()){
